@@ -282,7 +282,11 @@ func checkErrSiteIn(c *core.Ctx, rule string, s errSite, unit *ssa.Function) {
 		}
 		// a helper that reports through an *error out-parameter is part of its caller's error handling, and so is a
 		// helper that consumes an error it is handed (p.fail(err) sends it, fatal(err) ends the process)
-		return c.P.InScope(callee) && (hasErrPtrParam(callee) || consumesError(callee))
+		if c.P.InScope(callee) && (hasErrPtrParam(callee) || consumesError(callee)) {
+			return true
+		}
+		// … and a small helper that turns an error into the several results of its caller (StopOnError(err) → stop, err)
+		return c.P.InScope(callee) && callee.Signature.Results().Len() >= 2 && takesError(callee) && callsNothing(callee)
 	}
 	x.Hooks.Call = func(x *absint.Exec, st *absint.State, site ssa.CallInstruction, callee *ssa.Function, fnv absint.Value, args []absint.Value) (absint.Value, bool) {
 		if site == s.call {
@@ -489,7 +493,7 @@ func writerIsBuffered(p *core.Program, fn *ssa.Function, v ssa.Value, depth int)
 }
 
 func stickyType(t types.Type) bool {
-	s := t.String()
+	s := core.EffectiveType(t).String() // an interface of the tree that only ever holds one type is that type
 	return s == "*bufio.Writer" || s == "*encoding/csv.Writer" || s == "*text/tabwriter.Writer"
 }
 
@@ -509,4 +513,24 @@ func isParseCallbackValue(site ssa.CallInstruction) bool {
 	}
 	n, ok := site.Common().Value.Type().(*types.Named)
 	return ok && n.Obj().Name() == "ParseCallback" && n.Obj().Pkg() != nil && n.Obj().Pkg().Path() == parserPkg
+}
+
+func takesError(fn *ssa.Function) bool {
+	for _, p := range fn.Params {
+		if isErrorType(p.Type()) {
+			return true
+		}
+	}
+	return false
+}
+
+func callsNothing(fn *ssa.Function) bool {
+	for _, b := range fn.Blocks {
+		for _, in := range b.Instrs {
+			if _, ok := in.(ssa.CallInstruction); ok {
+				return false
+			}
+		}
+	}
+	return len(fn.Blocks) > 0
 }
